@@ -196,6 +196,8 @@ def run(ctx, out, tier):
     else:
         out.viol("C04.exit", "C04.exit|sites", "-", "process::exit / abort is called from %s; expected only the report function" % [b.id for b, t in ex])
         out.inst("C04.exit", 0, 1)
+    from rules.C03 import check_sametext
+    check_sametext(ctx, out, rule="C04.sametext")
     shared.sh_units(ctx, out)
     m = meta(len(S), n_auto, n_tab, by_class)
     if tier == "thorough":
